@@ -183,8 +183,11 @@ func cmdCheck(args []string) int {
 		if err := c.loadSpecs(trustedFiles); err != nil {
 			return undecided("contracts: " + err.Error())
 		}
-		genErrs = append(genErrs, c.checkImmutables()...)
-		genErrs = append(genErrs, c.checkEncapsulated()...)
+		// a declaration (immutable / encapsulated) that no longer fits the code is a stale contract:
+		// the property's replay witnesses decide, like for a function whose clauses cannot be bound
+		if de := append(c.checkImmutables(), c.checkEncapsulated()...); len(de) > 0 {
+			stale["<declarations>"] = append(stale["<declarations>"], de...)
+		}
 		for k := range c.immutable {
 			immutNote[k] = true
 		}
@@ -553,6 +556,19 @@ func cmdCheck(args []string) int {
 			if e != nil && !ranTest[e.Test] {
 				ranTest[e.Test] = true
 				confirmed, out = runReplayTest(e, map[string]string{})
+			}
+			if l == "<declarations>" {
+				// no single function: every replay test registered for the property is a witness
+				for _, re := range loadReplayMap(verifDir) {
+					re := re
+					if re.Property != *prop || ranTest[re.Test] || confirmed {
+						continue
+					}
+					ranTest[re.Test] = true
+					if ok, o := runReplayTest(&re, map[string]string{}); ok {
+						confirmed, out, e = true, o, &re
+					}
+				}
 			}
 			if confirmed {
 				violations++
